@@ -1,4 +1,4 @@
-import SoxrModel.Cr.Pull
+import SoxrModel.Cr.PullCount
 /-!
 # C18 Input-function contract: bounded requests, no call after end or failure
 
@@ -119,13 +119,26 @@ theorem process_request_bound (num : Num) (fuel : Nat) (a a' : Api) (hasIn flush
     rw [hm] at this
     exact this
 
-/-- Not yet proved in Lean: everything supplied is consumed exactly once, in order (the engine's `samples_in` grows by
-    exactly the supplied amount).  Decided on the real code: pull-mode output is bit-identical to the push and
-    one-shot runs of the same stream (C05) and the drained total is `owed(supplied)`. -/
-def Goal_supplied_consumed_once : Prop :=
-  ∀ (num : Num) (fuel : Nat) (a a' : Api) (len0 od : Nat) (script rest : List Supply) (reqs : List Nat),
-    a.output num fuel len0 script = some (a', od, rest, reqs) → a.error = false → a'.flushing = false →
-    a'.eng.sin = a.eng.sin + ((script.take (script.length - rest.length)).map fun s => match s with | .data n => n | _ => 0).sum
+/-- **Everything supplied is consumed exactly once** (count form).  Over one `soxr_output` call that does not latch
+    end-of-input, the engine's `samples_in` grows by exactly the frames carried by the answers the call consumed — the
+    consumed answers being a prefix of the script (order) — for every script, state and request.  (That the SAMPLES
+    then come out as the resampling of exactly those frames in that order is C05's `delivered_is_canonical`; once
+    end-of-input is latched `_soxr_flush` folds `samples_in` into the owed count, which C03 covers.) -/
+theorem supplied_consumed_once (num : Num) (fuel : Nat) (a a' : Api) (len0 od : Nat) (script rest : List Supply) (reqs : List Nat)
+    (h : a.output num fuel len0 script = some (a', od, rest, reqs)) (herr : a.error = false) (hefl : a.eng.fl = false)
+    (hfl' : a'.flushing = false) :
+    ∃ used, script = used ++ rest ∧ a'.eng.sin = a.eng.sin + dataSum used := by
+  unfold Api.output at h
+  simp only [herr, Bool.false_eq_true, if_false] at h
+  cases hp : pullLoop num fuel len0 (min a.maxIlen (num.iForO len0)) (script.length + 2) a len0 0 script [] with
+  | none => simp [hp] at h
+  | some v =>
+    obtain ⟨b, od', rest', reqs'⟩ := v
+    simp only [hp] at h
+    injection h with h; injection h with h1 h; injection h with _ h; injection h with h3 _
+    subst h1; subst h3
+    obtain ⟨used, u1, u2, _⟩ := pullLoop_sin num fuel len0 _ _ a len0 0 script [] _ od' _ reqs' hp herr hefl hfl'
+    exact ⟨used, u1, u2⟩
 
 /-! ## non-vacuity: a scripted call on a concrete engine -/
 def exApi : Api := { eng := { stages :=
@@ -133,8 +146,8 @@ def exApi : Api := { eng := { stages :=
 def exNum : Num := { owed := fun n => n / 2, iForO := fun n => 2 * n }
 
 example : ∃ r, exApi.output exNum 1000 10 [.data 64, .data 64, .fail, .data 100] = some r ∧ r.1.error = false ∧
-    r.2.1 = 10 ∧ r.2.2.2 = [20] ∧ r.2.2.1 = [.data 64, .fail, .data 100] := by
-  refine ⟨_, rfl, ?_, ?_, ?_, ?_⟩ <;> decide
+    r.2.1 = 10 ∧ r.2.2.2 = [20] ∧ r.2.2.1 = [.data 64, .fail, .data 100] ∧ r.1.eng.sin = 64 ∧ r.1.flushing = false := by
+  refine ⟨_, rfl, ?_, ?_, ?_, ?_, ?_, ?_⟩ <;> decide
 
 /-- a failure at the first call: error state, the answers after it are never asked for -/
 example : ∃ r, exApi.output exNum 1000 100 [.fail, .data 100] = some r ∧ r.1.error = true ∧ r.2.2.1 = [.data 100] := by
